@@ -356,6 +356,73 @@ def big_file_failures(res, judge, tdir):
                     except OSError:
                         pass
             del held
+    # the same big file handed over as a STREAM the caller opened: a pipe, a socket file (neither can seek), a text-mode file
+    # object opened by mistake, complete and cut short.  Whatever the library does with such an argument - refuse it, buffer it,
+    # re-open it by name - it holds no descriptor of its own afterwards
+    from .. import workload
+    for kind, data in variants[:3]:
+        for sname, opener in list(workload.stream_kinds(data, tdir, tag=f"big-{kind}")):
+            if sname not in ("pipe", "socket", "unbuffered", "gzip.open"):
+                continue
+            case = {"file": f"big:{kind}", "bytes": len(data), "source": "caller-" + sname}
+            judge.case = case
+            arg, closers = opener()
+            before = _fds()
+            held = None
+            try:
+                judge.wrapped(arg)
+            except BaseException as e:  # noqa
+                held = e
+            res.count("loads")
+            res.count("big_stream_loads")
+            res.count("descriptor_checks")
+            leaked = [fd for fd in _fds() - before if _fd_alive(fd)]
+            if leaked:
+                what = []
+                for fd in leaked:
+                    try:
+                        what.append(os.readlink(f"/proc/self/fd/{fd}"))
+                    except OSError:
+                        what.append("?")
+                    try:
+                        os.close(fd)
+                    except OSError:
+                        pass
+                res.violation(f"C18:descriptor-left-open:{'raise' if held is not None else 'return'}",
+                              f"{len(leaked)} descriptor(s) opened by the library while loading {len(data)} bytes from a caller-supplied {sname} stream are still open "
+                              f"({type(held).__name__ if held else 'returned'}): {what[:3]}", case)
+            del held
+            for c_ in closers:
+                try:
+                    c_.close()
+                except Exception:
+                    pass
+        # a text-mode file object (open(path) without "b")
+        path = os.path.join(tdir, f"big-{kind}.sunvox")
+        for enc in ("utf-8", "latin-1"):
+            case = {"file": f"big:{kind}", "bytes": len(data), "source": "caller-text-mode:" + enc}
+            judge.case = case
+            with open(path, "r", encoding=enc, errors="replace") as tf:
+                before = _fds()
+                held = None
+                try:
+                    judge.wrapped(tf)
+                except BaseException as e:  # noqa
+                    held = e
+                res.count("loads")
+                res.count("text_mode_stream_loads")
+                res.count("descriptor_checks")
+                leaked = [fd for fd in _fds() - before if _fd_alive(fd)]
+                if leaked:
+                    for fd in leaked:
+                        try:
+                            os.close(fd)
+                        except OSError:
+                            pass
+                    res.violation(f"C18:descriptor-left-open:{'raise' if held is not None else 'return'}",
+                                  f"{len(leaked)} descriptor(s) opened by the library while it was handed a text-mode file object are still open "
+                                  f"({type(held).__name__ if held else 'returned'})", case)
+                del held
 
 
 def boundaries(data):
